@@ -26,15 +26,20 @@ CONSTANTS NRanks,            \* ranks of the worker
           DevAllocBusy,      \* _alloc hands out busy ranks
           DevNoDealloc,      \* ranks are not given back
           DevNoDeallocOnSendFail,  \* a failed send keeps the ranks allocated
-          DevMissingIsDone   \* master: a result without exit code counts as success
+          DevMissingIsDone,  \* master: a result without exit code counts as success
+          Fine,              \* step _Resources._alloc / _dealloc operation by operation
+          DevCheckOutsideLock  \* _alloc counts the free ranks (and clears the event)
+                               \* before it takes the resource lock
 
 Rank == 0 .. NRanks - 1
 Code(o) == IF o = "ok" THEN 0 ELSE IF o = "raise" THEN 1 ELSE -9
 
 VARIABLES oc, st, tq, cur, evt, occ, rq, rres, cache, mres,
-          held, put, back, ecm, target
+          held, put, back, ecm, target,
+          tpc, upc, ureq, rlk        \* Fine: where puller / pusher are, the resource lock
 
-vars == <<oc, st, tq, cur, evt, occ, rq, rres, cache, mres, held, put, back, ecm, target>>
+fv   == <<tpc, upc, ureq, rlk>>
+vars == <<oc, st, tq, cur, evt, occ, rq, rres, cache, mres, held, put, back, ecm, target, fv>>
 
 SetMax(S) == CHOOSE x \in S : \A y \in S : y <= x
 SetMin(S) == CHOOSE x \in S : \A y \in S : x <= y
@@ -52,6 +57,7 @@ Init ==
   /\ held = [r \in Reqs |-> {}]
   /\ put = [r \in Reqs |-> 0] /\ back = [r \in Reqs |-> 0]
   /\ ecm = [r \in Reqs |-> 0] /\ target = [r \in Reqs |-> "none"]
+  /\ tpc = "idle" /\ upc = "idle" /\ ureq = "none" /\ rlk = "free"
 
 Free == {k \in Rank : occ[k] = 0}
 LowestN(S, n) == {i \in S : Cardinality({j \in S : j < i}) < n}
@@ -62,7 +68,7 @@ Idx(S, k) == Cardinality({j \in S : j < k})       \* position of rank k in the r
 
 Submit(r) ==
   /\ st[r] = "new" /\ st' = [st EXCEPT ![r] = "tq"] /\ tq' = Append(tq, r)
-  /\ UNCHANGED <<oc, cur, evt, occ, rq, rres, cache, mres, held, put, back, ecm, target>>
+  /\ UNCHANGED <<oc, cur, evt, occ, rq, rres, cache, mres, held, put, back, ecm, target, fv>>
 
 Place(r) ==
   LET S == Pick(r) IN
@@ -87,30 +93,31 @@ PlaceOrFail(r) ==
 
 \* the puller takes the next request: refuses it, places it or starts waiting
 MTake(r) ==
-  /\ cur = "none" /\ tq # <<>> /\ Head(tq) = r /\ tq' = Tail(tq)
+  /\ ~Fine /\ cur = "none" /\ tq # <<>> /\ Head(tq) = r /\ tq' = Tail(tq)
   /\ IF Oversize(r) THEN Refuse(r) /\ UNCHANGED <<cur, evt, occ, held, rq>>
      ELSE IF Fits(r) THEN PlaceOrFail(r) /\ UNCHANGED <<cur, evt>>
      ELSE /\ cur' = r /\ evt' = FALSE /\ st' = [st EXCEPT ![r] = "held"]
           /\ UNCHANGED <<occ, held, rq, mres, put>>
-  /\ UNCHANGED <<oc, rres, cache, back, ecm, target>>
+  /\ UNCHANGED <<oc, rres, cache, back, ecm, target, fv>>
 
 \* ranks were given back: the puller tries again
 MRetry ==
-  /\ cur # "none" /\ evt
+  /\ ~Fine /\ cur # "none" /\ evt
   /\ IF Fits(cur) THEN PlaceOrFail(cur) /\ cur' = "none" /\ UNCHANGED evt
      ELSE evt' = FALSE /\ UNCHANGED <<cur, occ, held, rq, st, mres, put>>
-  /\ UNCHANGED <<oc, tq, rres, cache, back, ecm, target>>
+  /\ UNCHANGED <<oc, tq, rres, cache, back, ecm, target, fv>>
 
 RankRun(k) ==
   /\ rq[k] # <<>>
   /\ LET r == Head(rq[k])[1] i == Head(rq[k])[2] IN
      rres' = rres \cup {[r |-> r, k |-> k, ec |-> Code(oc[r][i])]}
   /\ rq' = [rq EXCEPT ![k] = Tail(@)]
-  /\ UNCHANGED <<oc, st, tq, cur, evt, occ, cache, mres, held, put, back, ecm, target>>
+  /\ UNCHANGED <<oc, st, tq, cur, evt, occ, cache, mres, held, put, back, ecm, target, fv>>
 
 \* the pusher gets one rank's result; the last one completes the request
 Collect(r, k) ==
   \E x \in rres :
+    /\ ~Fine
     /\ x.r = r /\ x.k = k
     /\ rres' = rres \ {x}
     /\ LET c == cache[r] \cup {x} IN
@@ -124,7 +131,88 @@ Collect(r, k) ==
                /\ put' = [put EXCEPT ![r] = @ + 1]
                /\ st' = [st EXCEPT ![r] = "mres"]
           ELSE UNCHANGED <<occ, held, evt, mres, put, st>>
-    /\ UNCHANGED <<oc, tq, cur, rq, back, ecm, target>>
+    /\ UNCHANGED <<oc, tq, cur, rq, back, ecm, target, fv>>
+
+(* ---- Fine: _Resources._alloc and _dealloc, one step per shared operation ---- *)
+(*   _alloc  : while True: if evt.is_set(): with lock: if need > free: evt.clear(); *)
+(*             continue; <take ranks>; return   else: evt.wait()                    *)
+(*   _dealloc: with lock: <free ranks>; evt.set()                                   *)
+(* The count of free ranks and the clear must be one step w.r.t. _dealloc (both     *)
+(* under the lock): otherwise the set can fall between them and is wiped out.       *)
+TUnch == UNCHANGED <<oc, tq, rres, cache, back, ecm, target, upc, ureq>>
+
+FGet(r) ==
+  /\ Fine /\ tpc = "idle" /\ cur = "none" /\ tq # <<>> /\ Head(tq) = r
+  /\ tq' = Tail(tq)
+  /\ IF Oversize(r) THEN Refuse(r) /\ UNCHANGED <<cur, tpc>>
+     ELSE /\ cur' = r /\ tpc' = "isset" /\ st' = [st EXCEPT ![r] = "held"]
+          /\ UNCHANGED <<mres, put>>
+  /\ UNCHANGED <<oc, evt, occ, rq, rres, cache, held, back, ecm, target, upc, ureq, rlk>>
+
+FIsSet ==
+  /\ tpc = "isset"
+  /\ tpc' = IF ~evt THEN "wait" ELSE IF DevCheckOutsideLock THEN "count" ELSE "lock"
+  /\ TUnch /\ UNCHANGED <<st, cur, evt, occ, rq, mres, held, put, rlk>>
+
+FWait ==
+  /\ tpc = "wait" /\ evt /\ tpc' = "isset"
+  /\ TUnch /\ UNCHANGED <<st, cur, evt, occ, rq, mres, held, put, rlk>>
+
+\* ranks are taken: the puller sends the copies and goes for the next request
+FPlace ==
+  /\ PlaceOrFail(cur) /\ cur' = "none" /\ tpc' = "idle" /\ rlk' = "free"
+  /\ TUnch /\ UNCHANGED evt
+
+FLock ==
+  /\ tpc = "lock" /\ rlk = "free"
+  /\ IF DevCheckOutsideLock THEN FPlace
+     ELSE /\ rlk' = "t" /\ tpc' = "count"
+          /\ TUnch /\ UNCHANGED <<st, cur, evt, occ, rq, mres, held, put>>
+
+FCount ==
+  /\ tpc = "count"
+  /\ IF ~Fits(cur)
+     THEN /\ tpc' = "clear" /\ TUnch /\ UNCHANGED <<st, cur, evt, occ, rq, mres, held, put, rlk>>
+     ELSE IF DevCheckOutsideLock
+     THEN /\ tpc' = "lock" /\ TUnch /\ UNCHANGED <<st, cur, evt, occ, rq, mres, held, put, rlk>>
+     ELSE FPlace
+
+FClear ==
+  /\ tpc = "clear"
+  /\ evt' = FALSE /\ tpc' = "isset" /\ rlk' = IF rlk = "t" THEN "free" ELSE rlk
+  /\ TUnch /\ UNCHANGED <<st, cur, occ, rq, mres, held, put>>
+
+\* the pusher: a rank's result; the last one goes on to give the ranks back
+FCollect(r, k) ==
+  \E x \in rres :
+    /\ Fine /\ upc = "idle" /\ x.r = r /\ x.k = k
+    /\ rres' = rres \ {x}
+    /\ cache' = [cache EXCEPT ![r] = @ \cup {x}]
+    /\ IF Cardinality(cache[r] \cup {x}) = Need[r]
+       THEN upc' = "lock" /\ ureq' = r ELSE UNCHANGED <<upc, ureq>>
+    /\ UNCHANGED <<oc, st, tq, cur, evt, occ, rq, mres, held, put, back, ecm, target, tpc, rlk>>
+
+FULock ==
+  /\ upc = "lock" /\ rlk = "free"
+  /\ rlk' = "u" /\ upc' = "set"
+  /\ occ' = IF DevNoDealloc THEN occ
+            ELSE [j \in Rank |-> IF j \in {y.k : y \in cache[ureq]} THEN 0 ELSE occ[j]]
+  /\ held' = [held EXCEPT ![ureq] = {}]
+  /\ st' = [st EXCEPT ![ureq] = "freed"]
+  /\ UNCHANGED <<oc, tq, cur, evt, rq, rres, cache, mres, put, back, ecm, target, tpc, ureq>>
+
+FUSet ==
+  /\ upc = "set"
+  /\ evt' = TRUE /\ rlk' = "free" /\ upc' = "idle" /\ ureq' = "none"
+  /\ mres' = mres \cup {[r |-> ureq, ec |-> Agg(cache[ureq]), has |-> TRUE]}
+  /\ put' = [put EXCEPT ![ureq] = @ + 1]
+  /\ st' = [st EXCEPT ![ureq] = "mres"]
+  /\ UNCHANGED <<oc, tq, cur, occ, rq, rres, cache, held, back, ecm, target, tpc>>
+
+FineStep == \/ \E r \in Reqs : FGet(r)
+            \/ FIsSet \/ FWait \/ FLock \/ FCount \/ FClear
+            \/ \E r \in Reqs, k \in Rank : FCollect(r, k)
+            \/ FULock \/ FUSet
 
 Result(r) ==
   /\ \E x \in mres : /\ x.r = r /\ mres' = mres \ {x}
@@ -134,7 +222,7 @@ Result(r) ==
                              THEN "DONE" ELSE "FAILED"]
   /\ back' = [back EXCEPT ![r] = @ + 1]
   /\ st' = [st EXCEPT ![r] = "out"]
-  /\ UNCHANGED <<oc, tq, cur, evt, occ, rq, rres, cache, held, put>>
+  /\ UNCHANGED <<oc, tq, cur, evt, occ, rq, rres, cache, held, put, fv>>
 
 Done == \A r \in Reqs : st[r] = "out"
 Terminated == Done /\ UNCHANGED vars
@@ -143,6 +231,7 @@ Next == \/ \E r \in Reqs : Submit(r) \/ MTake(r) \/ Result(r)
         \/ MRetry
         \/ \E k \in Rank : RankRun(k)
         \/ \E r \in Reqs, k \in Rank : Collect(r, k)
+        \/ FineStep
         \/ Terminated
 Spec == Init /\ [][Next]_vars
 
@@ -152,7 +241,7 @@ AllOk(r) == Ran(r) /\ \A i \in Rank : i < Need[r] => oc[r][i] = "ok"
 
 TypeOK == /\ \A k \in Rank : occ[k] \in {0, 1}
           /\ cur \in Reqs \cup {"none"}
-          /\ \A r \in Reqs : st[r] \in {"new", "tq", "held", "run", "mres", "out"}
+          /\ \A r \in Reqs : st[r] \in {"new", "tq", "held", "run", "freed", "mres", "out"}
 InvNoShare    == /\ \A r, s \in Reqs : r # s => held[r] \cap held[s] = {}
                  /\ \A r \in Reqs : held[r] \subseteq Rank
 InvDemandMet  == \A r \in Reqs : st[r] = "run" => Cardinality(held[r]) = Need[r]
@@ -165,5 +254,5 @@ InvAgg        == \A r \in Reqs : \A x \in mres : x.r = r =>
                     /\ x.has = Ran(r)
                     /\ (x.has => ((x.ec = 0) <=> AllOk(r)))
 InvTarget     == \A r \in Reqs : st[r] = "out" => ((target[r] = "DONE") <=> AllOk(r))
-InvEvt        == cur = "none" => evt
+InvEvt        == (~Fine /\ cur = "none") => evt
 =============================================================================
